@@ -348,6 +348,28 @@ impl ValuePiece {
     }
 }
 
+/// sizing probe: for every value length `max_len`, `max_len - 1`, ... 0 calls
+/// `f(len, encoded size estimated by write_piece, piece size it reserves)`.
+#[cfg(feature = "verif_hooks")]
+pub fn verif_value_slot_sizes(max_len: usize, f: &mut dyn FnMut(usize, u32, u32)) {
+    let piece_mgr = PieceMgr::new(&REC_SIZE_FREE_OFFSET, &REC_SIZE_ARY);
+    let mut piece = ValuePiece::with(
+        ValuePieceOffset::new(0),
+        ValuePieceSize::new(0),
+        vec![0u8; max_len],
+    );
+    loop {
+        let (encorded_piece_len, piece_len, _value_len) = piece.encoded_piece_size();
+        let size = piece_mgr.roundup(ValuePieceSize::new(encorded_piece_len + piece_len));
+        f(piece.value.len(), encorded_piece_len + piece_len, size.as_value());
+        if piece.value.is_empty() {
+            break;
+        }
+        let len = piece.value.len() - 1;
+        piece.value.truncate(len);
+    }
+}
+
 impl VarFileValueCache {
     fn delete_piece(&mut self, offset: ValuePieceOffset) -> Result<ValuePieceSize> {
         let old_piece_size = {
@@ -388,6 +410,8 @@ impl VarFileValueCache {
             } else {
                 // delete old and add new
                 // old
+                #[cfg(feature = "verif_hooks")]
+                crate::verif_hooks::note("val_relocate");
                 self.0.push_free_piece_list(piece.offset, old_piece_size)?;
             }
         }
